@@ -1865,11 +1865,16 @@ class Rule(metaclass=LogicalType):
     @classmethod
     def resolve_forward_refs(cls):
         # an override version of LogicalType.resolve_forward_refs
+        origin_resolved = False
+        origin = cls.__origin__
+        if isinstance(origin, LogicalType) and getattr(origin, 'combinator', None):
+            # Rule[AnyOf(ForwardRef('X'), NoneType)]: the references live in the logical origin
+            origin_resolved = bool(origin.resolve_forward_refs())
         if not cls.__args__:
-            return False
+            return origin_resolved
         args = []
         arg_transformers = []
-        resolved = False
+        resolved = origin_resolved
         for arg, trans in zip(cls.__args__, cls.__arg_transformers__):
             if isinstance(arg, LogicalType):
                 # including the Rule class and LogicalType with combinator
